@@ -35,6 +35,7 @@ func (r c14In) row(id int) Row {
 // acc_* accumulate usable values)
 type c14State struct {
 	hist    []float64
+	histAll []*float64 // every row, NULLs included (lag with ignoreNull = false)
 	latest  *float64
 	hcInit  bool
 	hcPrev  *float64
@@ -63,6 +64,16 @@ func (s *c14State) step(v *float64) map[string]*float64 {
 	out["lag1"] = s.lag(v, 1, nil)
 	out["lag2"] = s.lag(v, 2, nil)
 	out["lag1d"] = s.lag(v, 1, fp(-1))
+	// lag(v, n, default, false): NULL rows stay in the history; the default stands only for "fewer than n earlier rows"
+	lagAll := func(off int, def *float64) *float64 {
+		if len(s.histAll) >= off {
+			return s.histAll[len(s.histAll)-off]
+		}
+		return def
+	}
+	out["lag1n"] = lagAll(1, fp(-1))
+	out["lag2n"] = lagAll(2, fp(0))
+	s.histAll = append(s.histAll, v)
 	// had_changed(true, v): NULL ignored (no change, base kept); first usable value counts as a change
 	hc := 0.0
 	if v != nil {
@@ -115,8 +126,8 @@ type c14Query struct {
 func c14Queries() []c14Query {
 	pos := func(r c14In) bool { return r.V != nil && *r.V > 0 }
 	return []c14Query{
-		{Name: "lag-latest", Part: true, SQL: "SELECT k, lag(v) OVER (PARTITION BY k) AS p1, lag(v, 2) OVER (PARTITION BY k) AS p2, lag(v, 1, -1) OVER (PARTITION BY k) AS p3, latest(v) OVER (PARTITION BY k) AS lt FROM stream",
-			Cols: map[string]string{"p1": "lag1", "p2": "lag2", "p3": "lag1d", "lt": "latest"}},
+		{Name: "lag-latest", Part: true, SQL: "SELECT k, lag(v) OVER (PARTITION BY k) AS p1, lag(v, 2) OVER (PARTITION BY k) AS p2, lag(v, 1, -1) OVER (PARTITION BY k) AS p3, latest(v) OVER (PARTITION BY k) AS lt, lag(v, 1, -1, false) OVER (PARTITION BY k) AS p4, lag(v, 2, 0, false) OVER (PARTITION BY k) AS p5 FROM stream",
+			Cols: map[string]string{"p1": "lag1", "p2": "lag2", "p3": "lag1d", "lt": "latest", "p4": "lag1n", "p5": "lag2n"}},
 		{Name: "acc", Part: true, SQL: "SELECT k, acc_sum(v) OVER (PARTITION BY k) AS s, acc_count(v) OVER (PARTITION BY k) AS c, acc_avg(v) OVER (PARTITION BY k) AS a, (acc_max(v) - acc_min(v)) OVER (PARTITION BY k) AS spread FROM stream",
 			Cols: map[string]string{"s": "sum", "c": "cnt", "a": "avg", "spread": "spread"}},
 		{Name: "had-changed", Part: true, SQL: "SELECT k, had_changed(true, v) OVER (PARTITION BY k) AS hc FROM stream", Cols: map[string]string{"hc": "hc"}},
